@@ -123,7 +123,9 @@ def gen_val(draw, target):
     k = draw(st.integers(0, 9))
     if k <= 4:
         return ['lit', draw(st.sampled_from([['i', 42], ['s', 'val'], ['none'], ['list', [['i', 1]]],
-                                             ['dict', [['q', ['i', 1]]]], ['tuple', [['i', 1]]]]))]
+                                             ['dict', [['q', ['i', 1]]]], ['tuple', [['i', 1]]],
+                                             # an instance of a dict SUBCLASS is a value like any other object
+                                             ['odict', [['q', ['i', 1]]]], ['odict', []]]))]
     if k == 5:
         return ['T', []]
     if k == 6:
@@ -248,6 +250,13 @@ def check(recipe, ctx):
             if vrec[0] in ('T', 'Spec'):
                 if back is not src and not (isinstance(src, tg._ATOM) and back == src):
                     raise Mismatch('read-back', '%s: expected the source object itself, got %r' % (where, back))
+            if vrec[0] == 'lit' and vrec[1][0] == 'odict':
+                # only plain dict / list / tuple / set literals are templates that are rebuilt; any other object is
+                # assigned as it is
+                ctx.label('value-of-a-dict-subclass')
+                if back is not val:
+                    raise Mismatch('read-back', '%s: the assigned value is an OrderedDict instance; the path now holds a copy of it'
+                                   % where)
             # frame: every position whose object keeps its identity under the plain Python assignment
             # (everything except the assigned slot and what hangs below it) keeps it under glom, too
             pos_after = mc.positions(g)
